@@ -10,6 +10,8 @@ TEXT = {
          "rapidcheck PBT, differential vs reference LR(1)+Earley, bounded-exhaustive inputs", "5/C01"),
  "C02": ("exploration", "Generated grammars and accepted inputs; the returned value is a non-commutative hash of the derivation tree, and the functor call log must be the post-order of the reference tree. Swapped, duplicated, stale or missing arguments change the hash.",
          "same as C01; functors of the template parsers log every call", "rapidcheck PBT, reference-model tree evaluation + call-log invariant", "5/C02"),
+ "C04": ("exploration", "Generated term sets; the merged lexer automaton is compared with a reference labelled DFA over all byte strings (exact per term set) and the token stream seen by functors is compared with a reference longest-match tokeniser on sampled inputs under all whitespace option combinations.",
+         "lexer injection through the friend hook; harness term classes; reference regex semantics", "rapidcheck PBT, labelled-automata equivalence + reference tokeniser, three-way bug-model scope", "5/C04"),
  "C05": ("exploration", "Generated ambiguous grammars with random precedence/associativity/explicit rule precedence; the value of the real parse must equal the value of the tree obtained by the documented resolution on the reference table.",
          "same as C01; R/R grammars excluded (README: undefined)", "rapidcheck PBT, differential vs reference resolution", "5/C05"),
  "C08": ("exploration", "Generated grammars with error rules and inputs with injected errors; outcome, kept values and error messages must equal the README recovery algorithm run on the reference table.",
